@@ -473,6 +473,42 @@ def resizers(rep, prog):
                 sw = [f.loc(b) for b in path if f.blocks[b]["t"]["k"] == "switch"]
                 why = "a path returns without resizing the storage to `new_len` (branching at %s): the container keeps its old length" % (sw[-1:] or [f.loc(bad[0])])
             rep.ob("RESIZE", "<%s as ResizableBytes>::resize" % st, bool(sites) and not bad, why, loc=f.loc(bad[0]) if bad else f0.loc())
+            # a resize that builds a replacement container (instead of resizing self's storage in place)
+            # keeps the old contents: every return lies behind a copy out of self's storage, except on an
+            # edge where that storage is known to be empty
+            repl = []
+            for c in f.calls():
+                if (c.path in RESIZE_CALLS or c.rpath in RESIZE_CALLS) and c.bb in sites:
+                    ls = list(operand_locals(c.args[0]))
+                    if ls and cm.view_info(f, ls[0])[0] != 1:
+                        repl.append(c)
+            if repl:
+                copies = []
+                for c in f.calls():
+                    if (c.path in cm.COPY or c.name in ("copy_from_slice", "clone_from_slice", "extend_from_slice")) and len(c.args) == 2 and not f.blocks[c.bb]["cleanup"]:
+                        ls = list(operand_locals(c.args[1]))
+                        if ls and cm.view_info(f, ls[0])[0] == 1:
+                            copies.append(c.bb)
+                empty_edges = []
+                for b in range(f.n):
+                    t = f.blocks[b]["t"]
+                    if t["k"] != "switch":
+                        continue
+                    e = expr_of_operand(f, t["x"])
+                    arms = {v: tb for v, tb in t["arms"]}
+                    if e.k == "call" and e.a.name == "is_empty" and 0 in arms and arms[0] != t["otherwise"]:
+                        empty_edges.append((b, t["otherwise"]))
+                    elif e.k == "binop" and e.a in ("Eq", "Ne") and 0 in arms and arms[0] != t["otherwise"] and \
+                            any(evaluate(x, {}) == 0 and not isinstance(evaluate(x, {}), bool) for x in (e.b, e.c)) and \
+                            any(x.k == "call" and x.a.name == "len" for x in (e.b, e.c)):
+                        empty_edges.append((b, t["otherwise"] if e.a == "Eq" else arms[0]))
+                free2 = f.reachable(0, cut_blocks=copies, cut_edges=empty_edges)
+                bad2 = [b for b in rets if b in free2]
+                rep.ob("RESIZE", "<%s as ResizableBytes>::resize|contents kept" % st, bool(copies) and not bad2,
+                       "the replacement container receives the old contents on every path (%d copy site(s))" % len(copies) if copies and not bad2 else
+                       "a path returns with a replacement container that never received the old contents (copy skipped at %s)" % (
+                           [f.loc(b) for b in (f.path_between(0, bad2[0], cut_blocks=copies, cut_edges=empty_edges) or []) if f.blocks[b]["t"]["k"] == "switch"][-1:] if bad2 else "?"),
+                       loc=f.loc(bad2[0]) if bad2 else f0.loc())
     rep.floor("ResizableBytes::resize impls", n, 3)
 
 
